@@ -82,6 +82,9 @@ type TagScanner struct {
 	processors.DefaultInstantiationAwareComponentPostProcessor
 	H       *Handle
 	Records []TagRecord
+	// Inventory: after scanning a component the scanner reads all properties found so far.
+	Inventory bool
+	Seen      int
 }
 
 func NewTagScanner(h *Handle, tag, nodeType string, handler bool) *TagScanner {
@@ -114,7 +117,14 @@ func (s *TagScanner) PostProcessDefinitionRegistry(registry container.Definition
 	if err := s.H.C.Callback("scan", s.H.ID+"@"+componentName, nil); err != nil {
 		return err
 	}
-	return s.DefaultTagScanDefinitionRegistryPostProcessor.PostProcessDefinitionRegistry(registry, component, componentName)
+	err := s.DefaultTagScanDefinitionRegistryPostProcessor.PostProcessDefinitionRegistry(registry, component, componentName)
+	if err == nil && s.Inventory && !s.H.C.Parallel {
+		// a scanner that also takes stock of what the definition holds so far (pure observation)
+		if m := registry.GetMetaByName(componentName); m != nil {
+			s.Seen += len(m.GetAllProperties())
+		}
+	}
+	return err
 }
 
 func (s *TagScanner) PostProcessAfterInstantiation(component any, componentName string) (bool, error) {
